@@ -14,7 +14,7 @@ Local Open Scope Z_scope.
    model satisfies the very monitor that judges the implementation's traces. *)
 Theorem c07_trace_holds : forall U has_scope c ops,
   wf_cfg has_scope c -> Forall (wf_op U) ops ->
-  holds U has_scope (limL c) (trace_i U c init_st ops) = true.
+  holds U has_scope c (trace_i U c init_st ops) = true.
 Proof. exact holds_model_i. Qed.
 Print Assumptions c07_trace_holds.
 
@@ -23,9 +23,10 @@ Print Assumptions c07_trace_holds.
 Theorem c07_trace_holds_given_multistream_contract : forall ms_select ms_lazy,
   (forall sup l p, ms_select sup l = Some p ->
      exists l1 l2, l = l1 ++ p :: l2 /\ sup p = true /\ (forall q, In q l1 -> sup q = false)) ->
+  (forall sup l, ms_select sup l = None -> forall q, In q l -> sup q = false) ->
   (forall sup p, ms_lazy sup p = sup p) ->
   forall U has_scope c ops, wf_cfg has_scope c -> Forall (wf_op U) ops ->
-  holds U has_scope (limL c) (trace ms_select ms_lazy U c init_st ops) = true.
+  holds U has_scope c (trace ms_select ms_lazy U c init_st ops) = true.
 Proof. exact holds_model_any. Qed.
 Print Assumptions c07_trace_holds_given_multistream_contract.
 
@@ -99,7 +100,7 @@ Proof. exact scopes_count_held_i. Qed.
 Print Assumptions c07_scopes_count_held_streams.
 
 (* ---- non-vacuity ------------------------------------------------------------ *)
-Definition nolim : cfg := mkCfg (fun _ => -1) (fun _ => -1) false false.
+Definition nolim : cfg := mkCfg (fun _ => -1) (fun _ => -1) false false false.
 
 (* a reachable obtained stream through SelectOneOf (second proposal, match
    function handler registered first wins over the exact one) *)
@@ -175,8 +176,8 @@ Proof. vm_compute. discriminate. Qed.
 (* what the basic host does in the same two situations (the model): the
    listener resets without dispatching / the open fails; accepted by the monitor *)
 Example basic_host_same_situations_accepted :
-  let c := mkCfg (fun p => if p =? 6 then 0 else -1) (fun p => if p =? 5 then 0 else -1) false true in
-  holds 8 true (limL c) (trace_i 8 c init_st [OAdd 5; OBatch [mkReq [5] [] false false];
+  let c := mkCfg (fun p => if p =? 6 then 0 else -1) (fun p => if p =? 5 then 0 else -1) false true false in
+  holds 8 true c (trace_i 8 c init_st [OAdd 5; OBatch [mkReq [5] [] false false];
                                                OAdd 6; OBatch [mkReq [6] [] false false]]) = true.
 Proof. vm_compute. reflexivity. Qed.
 
@@ -222,7 +223,7 @@ Proof. vm_compute. discriminate. Qed.
 (* a held stream goes on reporting the protocol it is attached to on both ends when
    SetProtocol is tried once more (model, real resource manager) *)
 Example relabel_is_refused_and_changes_nothing :
-  let c := mkCfg (fun _ => -1) (fun _ => -1) false true in
+  let c := mkCfg (fun _ => -1) (fun _ => -1) false true false in
   let tr := trace_i 4 c init_st [OAdd 1; OBatch [mkReq [1] [] false false]; ORelabel 0 1 3] in
   nth 2 tr (OAdd 0, ObMux []) = (ORelabel 0 1 3, ObRelabel 1 1 1).
 Proof. vm_compute. reflexivity. Qed.
